@@ -11,6 +11,22 @@ def gmax {α : Type} [LE α] [DecidableLE α] (a b : α) : α := if a ≤ b then
 /-- `math.Abs`. -/
 def gabs {α : Type} [LT α] [DecidableLT α] [Neg α] [OfNat α 0] (a : α) : α := if a < 0 then -a else a
 
+/-! `float64` instances: Go's `math.Min/Max/Abs` exactly, including their documented special
+cases (±Inf before NaN, NaN propagates, `Min(-0,+0) = -0`, `Max(-0,+0) = +0`, `Abs(-0) = +0`). -/
+def fNaN : Float := 0.0 / 0.0
+def fSignbit (x : Float) : Bool := x.toBits >>> 63 == 1
+def gminF (x y : Float) : Float :=
+  if (x.isInf && x < 0) || (y.isInf && y < 0) then -(1.0 / 0.0)
+  else if x.isNaN || y.isNaN then fNaN
+  else if x == 0 && x == y then (if fSignbit x then x else y)
+  else if x < y then x else y
+def gmaxF (x y : Float) : Float :=
+  if (x.isInf && x > 0) || (y.isInf && y > 0) then 1.0 / 0.0
+  else if x.isNaN || y.isNaN then fNaN
+  else if x == 0 && x == y then (if fSignbit x then y else x)
+  else if x > y then x else y
+def gabsF (x : Float) : Float := x.abs
+
 /-- `bits.TrailingZeros64`: index of the lowest set bit, 64 for 0 (bit-by-bit scan). -/
 def tz64Aux (v : BitVec 64) : Nat → Nat → Nat
   | 0, i => i
